@@ -194,7 +194,52 @@ def h7(model: Model, rep: Report, cg: CallGraph, ef: Effects, rule: str = "C03.H
                                 stores.append((t.attr, x.value, x))
                     if isinstance(x, ast.Call) and ast.unparse(x.func).endswith("__setattr__") and len(x.args) >= 3 and isinstance(x.args[1], ast.Constant):
                         stores.append((x.args[1].value, x.args[2], x))
-                for attr, val, stmt in stores:
+                # what a local name of the constructor is computed from (flow-insensitive): its right-hand sides, the iterables it ranges over and the
+                # tests that decide whether it is assigned
+                local_defs: Dict[str, List[ast.AST]] = {}
+
+                def _note(name, *exprs):
+                    local_defs.setdefault(name, []).extend(e_ for e_ in exprs if e_ is not None)
+
+                def _scan(stmts, tests):
+                    for st_ in stmts:
+                        if isinstance(st_, (ast.Assign, ast.AnnAssign, ast.AugAssign)) and getattr(st_, "value", None) is not None:
+                            for t_ in (st_.targets if isinstance(st_, ast.Assign) else [st_.target]):
+                                for nm_ in ast.walk(t_):
+                                    if isinstance(nm_, ast.Name):
+                                        _note(nm_.id, st_.value, *tests)
+                        elif isinstance(st_, ast.For):
+                            for nm_ in ast.walk(st_.target):
+                                if isinstance(nm_, ast.Name):
+                                    _note(nm_.id, st_.iter, *tests)
+                            _scan(st_.body, tests + [st_.iter])
+                            _scan(st_.orelse, tests)
+                        elif isinstance(st_, (ast.If, ast.While)):
+                            _scan(st_.body, tests + [st_.test])
+                            _scan(st_.orelse, tests + [st_.test])
+                        elif isinstance(st_, ast.With):
+                            _scan(st_.body, tests)
+                        elif isinstance(st_, ast.Try):
+                            _scan(st_.body, tests)
+                            for h_ in st_.handlers:
+                                _scan(h_.body, tests)
+                            _scan(st_.orelse, tests)
+                            _scan(st_.finalbody, tests)
+                _scan(f.node.body, [])
+
+                def _expanded(val_):
+                    out_, seen_, work_ = [val_], set(), [val_]
+                    while work_:
+                        e_ = work_.pop()
+                        for nm_ in ast.walk(e_):
+                            if isinstance(nm_, ast.Name) and isinstance(nm_.ctx, ast.Load) and nm_.id in local_defs and nm_.id not in seen_:
+                                seen_.add(nm_.id)
+                                out_.extend(local_defs[nm_.id])
+                                work_.extend(local_defs[nm_.id])
+                    return out_
+                for attr, val0, stmt in stores:
+                    exprs = _expanded(val0)
+                    val = ast.Tuple(elts=list(exprs), ctx=ast.Load())
                     # functions the stored expression runs
                     callees = []
                     for cs in cg.call_sites(f):
@@ -224,8 +269,8 @@ def h7(model: Model, rep: Report, cg: CallGraph, ef: Effects, rule: str = "C03.H
                         any(isinstance(y, ast.Attribute) and y.attr == attr and isinstance(y.ctx, ast.Load) for k in c.mro() for g in k.properties.values() for y in ast.walk(g.node))
                     bad = bool(hits) and read_later
                     rep.check(not bad, rule, f"{c.name}.{attr}[computed in {iname}]", f"{f.module.relpath}:{stmt.lineno}",
-                              found=f"{ast.unparse(val)[:80]} reads {sorted(hits)[:6]} (changed later by {sorted({w.fn.qualname for a in hits for w in mutable[a]})[:3]})" if bad else
-                              f"{ast.unparse(val)[:80]}: depends on nothing that is written outside constructors" + ("" if read_later else " (field never read)"),
+                              found=f"{ast.unparse(val0)[:80]} reads {sorted(hits)[:6]} (changed later by {sorted({w.fn.qualname for a in hits for w in mutable[a]})[:3]})" if bad else
+                              f"{ast.unparse(val0)[:80]}: depends on nothing that is written outside constructors" + ("" if read_later else " (field never read)"),
                               required="computed when it is read, or from construction-time constants only",
                               what=f"{c.name}.{attr} is computed once at construction from {sorted(hits)[:4]}, which change afterwards ({sorted({w.fn.qualname for a in hits for w in mutable[a]})[:2]}): "
                                    "what is read from it later is the state of construction time", detail=f"frozen:{attr}")
